@@ -569,3 +569,35 @@ Example ex_add_command :
   add_command ex_own_jobs (mkCmd 8 20 true None all6 []) = (ex_own_jobs, false)
   /\ snd (add_command ex_own_jobs ex_cmd) = true.
 Proof. vm_compute. split; reflexivity. Qed.
+
+(* ================================================================== the full-strength statements *)
+(* P0 start_target_eligible, full strength for ALL_INSTANCES: whatever the other pending requests are (the job's own
+   requests being part of them), the target passes the property's check. It is FALSE (finding B): the hypothesis
+   H_own_requests_are_all of start_target_eligible_partial cannot be dropped. *)
+Definition start_target_eligible_statement : Prop :=
+  forall s local L M prule J c all t,
+    nodes_nodup L = true -> nodes_consistent L = true -> layout_wf L (load_requests J) = true -> c_target c = None ->
+    (forall m, node_req L (load_requests J) m <= node_req L all m) ->      (* the job's own requests are pending requests *)
+    process_job D_ALL_INSTANCES s local L M prule J c = Ok (Sent t) ->
+    request_ok (mkView L M prule (c_known c) (c_disabled c) (c_load c) all) t = true.
+
+Theorem start_target_eligible_refuted : ~ start_target_eligible_statement.
+Proof.
+  intros H.
+  specialize (H S_CONFIG 1 (w_layout 0) w_mapper [wildcard] wb_jobs wb_cmd wb_all 1).
+  assert (request_ok (mkView (w_layout 0) w_mapper [wildcard] (c_known wb_cmd) (c_disabled wb_cmd) (c_load wb_cmd) wb_all) 1
+          = true) as K.
+  { apply H; try (vm_compute; reflexivity).
+    intros m. change (load_requests wb_jobs) with (@nil (Z * Z)). unfold node_req, wb_all.
+    cbn [filter map fst snd zsum fold_right].
+    destruct (node_is (node_opt (w_layout 0) 1) m); cbn [filter map fst snd zsum fold_right]; lia. }
+  vm_compute in K. discriminate.
+Qed.
+
+(* P0 no_duplicate_request (the two local facts; the run-level fact is SequencerProofs.requests_only_from_groups) *)
+Theorem no_duplicate_request :
+  (forall d s local L M prule J c, c_stopped c = false -> process_job d s local L M prule J c = Ok Skipped)
+  /\ (forall J c c0,
+        In c0 (j_current J ++ j_planned J) -> c_proc c0 = c_proc c ->
+        (c_target c = None \/ c_target c0 = c_target c) -> add_command J c = (J, false)).
+Proof. split; [exact process_job_not_stopped | exact add_command_refuses_duplicate]. Qed.
